@@ -50,7 +50,7 @@ Definition run_C27 (rs : list rspec) (cs : list cspec) (script : list ev) : obs 
   obs_of (run_state rs cs script).
 
 Definition tag_eqb (a b : tag) : bool :=
-  match a, b with TTimeout, TTimeout => true | TBadFdCo, TBadFdCo => true | _, _ => false end.
+  match a, b with TTimeout, TTimeout => true end.
 Definition tags_C27 (rs : list rspec) (cs : list cspec) (script : list ev) : list tag :=
   s_tags (run_state rs cs script).
 
@@ -203,13 +203,11 @@ Definition wf_C27 (rs : list rspec) (cs : list cspec) (script : list ev) : bool 
                        || (demand rs cs r <=? rs_pre sp + feeds_of rs script r))
              (seq_nat O (length rs)).
 
-(** the recorded findings concern coroutines only: a read-type call on a socket with a receive time
-    limit (finding timed_out_call_keeps_slot), any call on a descriptor number that is not open
-    (finding coroutine_bad_fd_aborts) *)
+(** the recorded finding concerns coroutines only: a read-type call on a socket with a receive time
+    limit (finding timed_out_call_keeps_slot) *)
 Definition no_defect (rs : list rspec) (cs : list cspec) : bool :=
   forallb (fun c => negb (cs_co c)
                     || forallb (fun cl => let sp := nth (c_res cl) rs rsdummy in
-                                          match rs_kind sp with KClosed => false | _ => true end
-                                          && negb (match classify (rs_kind sp) (c_op cl) with CRead => rs_timed sp | _ => false end))
+                                          negb (match classify (rs_kind sp) (c_op cl) with CRead => rs_timed sp | _ => false end))
                                (calls_of (cs_prog c)))
           cs.
